@@ -167,11 +167,26 @@ def own_refusal(exc):
     return os.path.realpath(last.filename).startswith(root) and (line.startswith("assert") or line.startswith("raise"))
 
 
+def _warm_up(case, root, a):
+    """an earlier construction over the same root dataset object (other arguments of the same trace): the selection
+    is a function of the constructor arguments and seed only, so it must not matter"""
+    signal.setitimer(TIMER, 2.0)
+    try:
+        w = construct(case["kind"], root, a)
+        for i in range(min(len(w), 3)):
+            w.getitem_x(i)
+    except BaseException:  # noqa: whatever the earlier construction did is not the observation
+        pass
+    finally:
+        signal.setitimer(TIMER, 0)
+
+
 def observe(case, a, deadline):
     """one construction under the global seed a['g']; returns (kind of event, selection, note)"""
     import numpy as np
     import torch
     perm = case.get("perm")
+    warm = case.get("warm")
     if perm:
         # the wrapper under test sits on top of a full-length permutation layer: position j of the PRESENTED dataset
         # (class case["cls"][j]) is sample perm[j] of the root dataset
@@ -180,11 +195,15 @@ def observe(case, a, deadline):
         for j, pj in enumerate(perm):
             base_cls[pj] = case["cls"][j]
         root = make_dataset(base_cls, case["C"], case["getall"], dim1=case.get("dim1", False))
+        if warm:
+            _warm_up(case, root, warm)
         ds = W.SubsetWrapper(root, indices=list(perm))
         pos_of = {1000 + 7 * pj: j for j, pj in enumerate(perm)}
     else:
         ds = make_dataset(case["cls"], case["C"], case["getall"], dim1=case.get("dim1", False))
         pos_of = {1000 + 7 * j: j for j in range(case["n"])}
+        if warm:
+            _warm_up(case, ds, warm)
     np.random.seed(a["g"])
     torch.default_generator.manual_seed(a["g"])  # CPU generator only: torch.manual_seed queues lazy device calls
     random.seed(a["g"])
@@ -606,8 +625,11 @@ def make_case(cid, kind, C, cls, args, rel, r, gseeds, inexact=False, stack=0.0)
         perm = list(range(len(cls)))
         while perm == sorted(perm):
             r.shuffle(perm)
+    warm = None
+    if r.random() < (0.5 if perm else 0.15):
+        warm = dict(r.choice(evs))
     return dict(id=cid, kind=kind, rel=rel, n=len(cls), C=C, cls=list(cls), getall=bool(r.random() < 0.5), dim1=dim1,
-                ev=evs, inexact=bool(inexact), perm=perm)
+                ev=evs, inexact=bool(inexact), perm=perm, warm=warm)
 
 
 def build_cases(tier, r):
